@@ -41,6 +41,50 @@ pub fn random_arcs(r: &mut Rng, n: usize, p: f64) -> Model {
     m
 }
 
+/// One of the nine public fixtures of the repository (the inputs whose
+/// expected values the test-suite pins), read back through arcs()/order().
+pub fn fixture(r: &mut Rng) -> Model {
+    use graaf::repr::adjacency_list::fixture as f;
+    use graaf::{Arcs, Order};
+    let d = match r.below(9) {
+        0 => f::bang_jensen_196(),
+        1 => f::bang_jensen_34(),
+        2 => f::bang_jensen_94(),
+        3 => f::kattis_builddeps(),
+        4 => f::kattis_cantinaofbabel_1(),
+        5 => f::kattis_cantinaofbabel_2(),
+        6 => f::kattis_escapewallmaria_1(),
+        7 => f::kattis_escapewallmaria_2(),
+        _ => f::kattis_escapewallmaria_3(),
+    };
+    let mut m = Model::new(d.order());
+    for (u, v) in d.arcs() {
+        m.arcs.insert((u, v), 1);
+    }
+    m
+}
+
+/// One of the weighted fixtures (usize weights; the isize twins have the
+/// same arcs and weights).
+pub fn fixture_weighted(r: &mut Rng) -> Model {
+    use graaf::repr::adjacency_list_weighted::fixture as f;
+    use graaf::{ArcsWeighted, Order};
+    let d = match r.below(7) {
+        0 => f::bang_jensen_94_usize(),
+        1 => f::bang_jensen_96_usize(),
+        2 => f::kattis_bryr_1_usize(),
+        3 => f::kattis_bryr_2_usize(),
+        4 => f::kattis_bryr_3_usize(),
+        5 => f::kattis_crosscountry_usize(),
+        _ => f::kattis_shortestpath1_usize(),
+    };
+    let mut m = Model::new(d.order());
+    for (u, v, w) in d.arcs_weighted() {
+        m.arcs.insert((u, v), *w as i64);
+    }
+    m
+}
+
 /// About `k` arcs per vertex, any order.
 pub fn sparse_random(r: &mut Rng, n: usize, k: usize) -> Model {
     let mut m = Model::new(n);
@@ -61,6 +105,9 @@ pub fn sparse_random(r: &mut Rng, n: usize, k: usize) -> Model {
 /// A digraph for an algorithm property: any family at small orders, sparse
 /// families / sparse random arcs at big orders.
 pub fn algo_digraph(r: &mut Rng, small_max: usize, big_max: usize) -> (Model, &'static str) {
+    if r.below(64) == 0 {
+        return (fixture(r), "repo_fixture");
+    }
     let n = algo_order(r, small_max, big_max);
     if n <= small_max {
         let f = r.below(FAMILIES.len());
@@ -235,9 +282,13 @@ pub fn family(r: &mut Rng, fam: usize, n: usize) -> Model {
                         m.add(u, (u + j) % n, 1);
                     }
                 }
-                // sometimes perturb by one arc
-                if r.chance(0.4) {
-                    perturb(r, &mut m);
+                // sometimes perturb: flip one pair, or move the tail / the head
+                // of one arc (keeps all indegrees resp. all outdegrees)
+                match r.below(10) {
+                    0..=2 => perturb(r, &mut m),
+                    3 | 4 => move_endpoint(r, &mut m, true),
+                    5 | 6 => move_endpoint(r, &mut m, false),
+                    _ => {}
                 }
             }
         }
@@ -314,6 +365,25 @@ pub fn family(r: &mut Rng, fam: usize, n: usize) -> Model {
         _ => unreachable!(),
     }
     m
+}
+
+/// Replace one arc u->v by w->v (`tail`) or by u->w (`!tail`).
+pub fn move_endpoint(r: &mut Rng, m: &mut Model, tail: bool) {
+    let n = m.n();
+    if n < 3 || m.size() == 0 {
+        return;
+    }
+    let k = r.below(m.size());
+    let (u, v) = *m.arcs.keys().nth(k).unwrap();
+    for _ in 0..8 {
+        let w = r.below(n);
+        let (a, b) = if tail { (w, v) } else { (u, w) };
+        if a != b && !m.has(a, b) {
+            m.remove(u, v);
+            m.add(a, b, 1);
+            return;
+        }
+    }
 }
 
 /// Flip one random ordered pair.
@@ -393,10 +463,13 @@ pub fn sparsify(r: &mut Rng, m: &Model) -> Model {
     let mut guard = 0;
     while ids.len() < n {
         guard += 1;
-        let c = match r.below(4) {
+        let c = match r.below(6) {
             0 => *r.pick(&SPARSE_POOL),
-            1 => r.below(2 * n + 3),
-            2 => 64 + r.below(4),
+            1 | 2 => r.below(2 * n + 3),
+            3 => 64 + r.below(4),
+            // an id equal to the order (or one more): the first id an
+            // order-sized buffer doesn't have
+            4 => n + r.below(2),
             _ => *r.pick(&SPARSE_POOL) + r.below(3),
         };
         ids.insert(c);
